@@ -5,7 +5,6 @@ V = '/verif'
 sys.path.insert(0, V + '/rules')
 props = [json.loads(l) for l in open(V + '/properties.jsonl')]
 NA = {
- 'C16': "lane packing (n mod 8 arithmetic) and the distance identities are value-level statements over all vector lengths and f32 values; nothing in the code shape decides them",
 }
 LEVEL_TEXT = {}
 checks = []
